@@ -21,7 +21,7 @@ META = {
                    'values on every path. Base case: fresh explainer with a growing label set.',
     'bounds': {
         'quick': {'d': '1..3', 'q': '1..2', 'm': '1..2', 'labels': '1..2 (+ growing {a} -> {a,b})', 'modes': 'static,dynamic'},
-        'thorough': {'d': '1..4', 'q': '1..3', 'm': '1..3', 'labels': '1..3', 'paths per configuration': '<= 30000'},
+        'thorough': {'d': '1..4', 'q': '1..3', 'm': '1..3', 'labels': '1..3', 'paths per configuration': '<= 6000'},
     },
     'outside': ['floating-point rounding', 'sizes beyond the bounds', 'NumPy-scalar model outputs in the normalised marginal '
                 'prediction (zero-sum behaviour by numeric type is C12)', 'tree imputer'],
@@ -49,7 +49,7 @@ def configs(tier):
         if k not in cfgs:
             cfgs.append(k)
     dmax, qmax, mmax = (3, 2, 2) if tier == 'quick' else (4, 3, 3)
-    cap = 200 if tier == 'quick' else 30000
+    cap = 200 if tier == 'quick' else 6000
     for mode in ('static', 'dynamic'):
         for imp in ('joint', 'product', 'default'):
             for d in range(1, dmax + 1):
